@@ -626,6 +626,10 @@ class Interp:
         c = self.w.concretise_iter(self, it, st)
         if c is not None:
             it = c
+        if isinstance(it, RangeV) and not getattr(self.w, "abstract_ranges", False):
+            q = _range_seq(it)         # bounds that differ by a known amount: the loop is run element by element
+            if q is not None:
+                it = ListObj(q)
         if isinstance(it, DictObj):
             it = ListObj(list(it.entries.keys()))
         if isinstance(it, SetObj):
@@ -1233,6 +1237,8 @@ class Interp:
                 seq = _concrete_seq(args[0]) if args else []
                 if seq is not None:
                     return FrozenV(seq)
+            if f.name == "str" and len(args) == 1 and isinstance(args[0], Const) and not kwargs and isinstance(args[0].v, (str, int, float, bool, type(None))):
+                return Const(str(args[0].v))
             if f.name in ("float", "bool") and len(args) == 1 and isinstance(args[0], Const):
                 try:
                     return Const({"float": float, "bool": bool}[f.name](args[0].v))
@@ -1252,6 +1258,8 @@ class Interp:
                 return args[0]
             if f.name == "dict" and not args and not kwargs:
                 return DictObj()
+            if f.name == "dict" and not args and kwargs:
+                return DictObj({Const(k): v for k, v in kwargs.items()})
             r = self.w.call_builtin(self, f.name, args, kwargs, e)
             if r is not None:
                 return r
@@ -1526,6 +1534,9 @@ class Interp:
                 return r if r is not None else Const(len(args[0].items))
             if isinstance(args[0], DictObj):
                 return Const(len(args[0].entries))
+            if isinstance(args[0], Const) and isinstance(args[0].v, (str, bytes)):
+                r = self.w.call_builtin(self, name, args, kwargs, node)
+                return r if r is not None else Const(len(args[0].v))
         if name == "iter" and len(args) == 1 and isinstance(args[0], (ListObj, TupleV, DictObj, SetObj, IterV)):
             if isinstance(args[0], IterV):
                 return args[0]
